@@ -526,7 +526,7 @@ func (w *world) exec(s script, fin map[string]string) (res execResult) {
 			// response flushes it, and the consumption goroutine may still be inside its last Consume
 			// when the queue is already empty: repeat drain + barrier until everything expected has
 			// arrived (a few rounds at most on the unchanged code), then one more barrier for extras.
-			for round := 0; round < 200 && !closed; round++ {
+			for round := 0; round < 30 && !closed; round++ {
 				sl.WaitUntil(func() bool {
 					rt, _, _, _ := src.VerifTables()
 					for _, x := range rt {
@@ -556,7 +556,7 @@ func (w *world) exec(s script, fin map[string]string) (res execResult) {
 					break
 				}
 				if got < want {
-					time.Sleep(time.Duration(round) * 50 * time.Microsecond)
+					time.Sleep(time.Duration(round) * time.Millisecond) // ≈ 0.4 s in total before giving up
 				}
 			}
 		} else {
